@@ -1006,9 +1006,9 @@ Lemma h_liquidate_struct w liqor liqee ab lb n w' :
   h_liquidate w liqor liqee ab lb n = Ok w' -> Eff w w'.
 Proof.
   intros H. unfold h_liquidate in H.
-  apply bind_ok in H as (u1 & _ & H). apply bind_ok in H as (u2 & _ & H).
   apply bind_ok in H as (ha & Hha & H). apply bind_ok in H as (hl & Hhl & H).
   apply bind_ok in H as (u3 & _ & H).
+  apply bind_ok in H as (u1 & _ & H). apply bind_ok in H as (u2 & _ & H).
   apply bind_ok in H as (ee & Hee & H). apply bind_ok in H as (er & Her & H).
   apply bind_ok in H as (u4 & _ & H).
   apply bind_ok in H as (u5 & Hvb & H). destruct u5.
